@@ -53,6 +53,15 @@ Definition src_sid (d : sidsrc) : sid :=
   | DCtx svc data => SHash svc data
   end.
 
+(* What the free constructor [SHash svc data] stands for (context.go:330-337):
+     h := sha256.New(); h.Write(serviceID[:]); h.Write(data)
+     return network.NewPeerSetID(h.Sum(nil))
+   i.e. the first 32 bytes of H(serviceID ++ data), the service id being a 16-byte
+   uuid and ALL of data entering the hash.  [H] is not interpreted. *)
+Definition ctx_preimage (svcid data : list nat) : list nat := svcid ++ data.
+Definition ctx_id (H : list nat -> list nat) (svcid data : list nat) : list nat :=
+  pad 32 (H (ctx_preimage svcid data)).
+
 Fixpoint natlist_eqb (a b : list nat) : bool :=
   match a, b with
   | [], [] => true
